@@ -1,5 +1,313 @@
-"""Engine V placeholder (filled in below)."""
+"""Engine V: weave the *current* text of selected real functions into a `verus!` file and run Verus on it.
+
+A unit's weave spec is /verif/verus/<spec>.py exposing `build(repo_root, unit) -> WeaveResult`. The helpers here
+do the mechanical part: locate items by brace matching, apply a *declared* substitution table (every entry
+must match its expected number of times, otherwise the weave fails = lost anchor, exit 2), and record, line by
+line, what was kept verbatim, substituted or dropped, so that the evidence states exactly what the verified
+text has in common with the code that runs.
+"""
+import importlib.util
+import json
+import os
+import re
+import subprocess
+import time
+
+VERIF = os.path.dirname(os.path.dirname(os.path.abspath(__file__)))
+REPO = os.environ.get("IPA_REPO", "/repo")
+
+
+class WeaveError(Exception):
+    pass
+
+
+# ------------------------------------------------------------------ source scanning
+def _skip_noncode(text, i):
+    """If text[i] starts a comment / string / char literal return the index just after it, else None."""
+    c = text[i]
+    if text.startswith("//", i):
+        j = text.find("\n", i)
+        return len(text) if j < 0 else j
+    if text.startswith("/*", i):
+        j = text.find("*/", i + 2)
+        return len(text) if j < 0 else j + 2
+    if c == '"':
+        j = i + 1
+        while j < len(text):
+            if text[j] == "\\":
+                j += 2
+                continue
+            if text[j] == '"':
+                return j + 1
+            j += 1
+        return len(text)
+    if c == "'":
+        # char literal vs lifetime
+        if i + 2 < len(text) and text[i + 1] == "\\":
+            j = text.find("'", i + 2)
+            return j + 1 if j > 0 else None
+        if i + 2 < len(text) and text[i + 2] == "'":
+            return i + 3
+        return None
+    return None
+
+
+def match_brace(text, open_idx):
+    """index of the `}` matching the `{` at open_idx"""
+    assert text[open_idx] == "{", text[open_idx:open_idx + 20]
+    depth = 0
+    i = open_idx
+    while i < len(text):
+        s = _skip_noncode(text, i)
+        if s is not None:
+            i = s
+            continue
+        c = text[i]
+        if c == "{":
+            depth += 1
+        elif c == "}":
+            depth -= 1
+            if depth == 0:
+                return i
+        i += 1
+    raise WeaveError("unbalanced braces")
+
+
+def find_item(text, head_regex, start=0, end=None):
+    """Locate an item whose head matches `head_regex` (must be unique in [start,end)); returns
+    (head_start, body_open, body_close) where body_open/close index the braces of its block."""
+    seg = text[start:end]
+    ms = list(re.finditer(head_regex, seg))
+    if len(ms) != 1:
+        raise WeaveError("anchor %r matched %d times (expected 1)" % (head_regex, len(ms)))
+    m = ms[0]
+    hs = start + m.start()
+    bo = text.find("{", start + m.end() - 1) if text[start + m.end() - 1] != "{" else start + m.end() - 1
+    if bo < 0:
+        raise WeaveError("no block after anchor %r" % head_regex)
+    bc = match_brace(text, bo)
+    return hs, bo, bc
+
+
+def code_lines(body):
+    """non-empty, non-comment lines of a body, stripped"""
+    out = []
+    for l in body.splitlines():
+        s = l.strip()
+        if not s or s.startswith("//"):
+            continue
+        out.append(s)
+    return out
+
+
+class Weaver:
+    """Tracks a body under transformation and the per-line report."""
+
+    def __init__(self, original_body):
+        self.original = original_body
+        self.text = original_body
+        self.subs = []      # (pattern, replacement, count, why)
+        self.drops = []     # (line, why)
+        self.woven = []     # (anchor, what)
+
+    def substitute(self, old, new, count, why):
+        n = self.text.count(old)
+        if n != count:
+            raise WeaveError("substitution anchor %r occurs %d times, expected %d" % (old, n, count))
+        self.text = self.text.replace(old, new)
+        self.subs.append({"from": old, "to": new, "count": count, "why": why})
+
+    def substitute_re(self, pat, new, count, why):
+        n = len(re.findall(pat, self.text))
+        if n != count:
+            raise WeaveError("substitution anchor /%s/ occurs %d times, expected %d" % (pat, n, count))
+        self.text = re.sub(pat, new, self.text)
+        self.subs.append({"from": "/" + pat + "/", "to": new, "count": count, "why": why})
+
+    def drop_line(self, line_regex, why, count=1):
+        lines = self.text.split("\n")
+        hit = [i for i, l in enumerate(lines) if re.search(line_regex, l)]
+        if len(hit) != count:
+            raise WeaveError("drop anchor /%s/ matched %d lines, expected %d" % (line_regex, len(hit), count))
+        for i in hit:
+            self.drops.append({"line": lines[i].strip(), "why": why})
+            lines[i] = ""
+        self.text = "\n".join(lines)
+
+    def drop_statement(self, start_regex, why):
+        """drop a (possibly multi-line) macro statement starting at start_regex up to its closing `);`"""
+        ms = list(re.finditer(start_regex, self.text))
+        if len(ms) != 1:
+            raise WeaveError("drop anchor /%s/ matched %d times, expected 1" % (start_regex, len(ms)))
+        i = ms[0].start()
+        # find the '(' then its match
+        po = self.text.find("(", i)
+        depth, j = 0, po
+        while j < len(self.text):
+            s = _skip_noncode(self.text, j)
+            if s is not None:
+                j = s
+                continue
+            if self.text[j] == "(":
+                depth += 1
+            elif self.text[j] == ")":
+                depth -= 1
+                if depth == 0:
+                    break
+            j += 1
+        k = self.text.find(";", j)
+        stmt = self.text[i:k + 1]
+        self.drops.append({"line": " ".join(stmt.split()), "why": why})
+        self.text = self.text[:i] + self.text[k + 1:]
+
+    def insert_before(self, anchor, what, label, count=1, which=0):
+        idxs = [m.start() for m in re.finditer(re.escape(anchor), self.text)]
+        if len(idxs) != count:
+            raise WeaveError("weave anchor %r occurs %d times, expected %d" % (anchor, len(idxs), count))
+        i = idxs[which]
+        self.text = self.text[:i] + what + self.text[i:]
+        self.woven.append({"anchor": "before `%s`" % anchor.strip(), "what": label})
+
+    def insert_after(self, anchor, what, label, count=1, which=0):
+        idxs = [m.end() for m in re.finditer(re.escape(anchor), self.text)]
+        if len(idxs) != count:
+            raise WeaveError("weave anchor %r occurs %d times, expected %d" % (anchor, len(idxs), count))
+        i = idxs[which]
+        self.text = self.text[:i] + what + self.text[i:]
+        self.woven.append({"anchor": "after `%s`" % anchor.strip(), "what": label})
+
+    def loop_head(self, head, clauses, label):
+        """`while cond {`  ->  `while cond <clauses> {`"""
+        if self.text.count(head) != 1:
+            raise WeaveError("loop anchor %r occurs %d times" % (head, self.text.count(head)))
+        assert head.rstrip().endswith("{")
+        i = self.text.index(head)
+        bo = i + len(head.rstrip()) - 1
+        self.text = self.text[:bo] + "\n" + clauses + "\n{" + self.text[bo + 1:]
+        self.woven.append({"anchor": "loop head `%s`" % head.strip(), "what": label})
+
+    def loop_body_end(self, head_prefix, what, label):
+        """insert `what` as the last thing in the body of the (unique) loop whose head starts with head_prefix"""
+        i = self.text.index(head_prefix)
+        bo = self.text.index("{", self._after_clauses(i))
+        bc = match_brace(self.text, bo)
+        self.text = self.text[:bc] + what + self.text[bc:]
+        self.woven.append({"anchor": "end of loop body `%s`" % head_prefix.strip(), "what": label})
+
+    def loop_body_start(self, head_prefix, what, label):
+        i = self.text.index(head_prefix)
+        bo = self.text.index("{", self._after_clauses(i))
+        self.text = self.text[:bo + 1] + what + self.text[bo + 1:]
+        self.woven.append({"anchor": "start of loop body `%s`" % head_prefix.strip(), "what": label})
+
+    def after_loop(self, head_prefix, what, label):
+        i = self.text.index(head_prefix)
+        bo = self.text.index("{", self._after_clauses(i))
+        bc = match_brace(self.text, bo)
+        self.text = self.text[:bc + 1] + what + self.text[bc + 1:]
+        self.woven.append({"anchor": "after loop `%s`" % head_prefix.strip(), "what": label})
+
+    def _after_clauses(self, i):
+        # the loop block's `{` is the first `{` at column start after the head (clauses never contain `{` at line start
+        # other than the block) -- we look for "\n{" if clauses were woven, else the first "{".
+        j = self.text.find("\n{", i)
+        k = self.text.find("{", i)
+        nl = self.text.find("\n", i)
+        if k != -1 and (nl == -1 or k < nl):
+            return k
+        return j + 1 if j != -1 else k
+
+    def report(self):
+        kept, changed = [], []
+        final_lines = set(code_lines(self.text))
+        for l in code_lines(self.original):
+            if l in final_lines:
+                kept.append(l)
+            else:
+                changed.append(l)
+        return {
+            "kept_verbatim": kept,
+            "not_verbatim": changed,
+            "substituted": self.subs,
+            "dropped": self.drops,
+            "woven_in": self.woven,
+        }
+
+
+class WeaveResult:
+    def __init__(self, text, report, source_files):
+        self.text = text
+        self.report = report
+        self.source_files = source_files
+
+
+# ------------------------------------------------------------------ running Verus
+def load_spec(name):
+    p = os.path.join(VERIF, "verus", name + ".py")
+    spec = importlib.util.spec_from_file_location("weave_" + name, p)
+    m = importlib.util.module_from_spec(spec)
+    spec.loader.exec_module(m)
+    return m
 
 
 def run_unit(u, outdir):
-    return {"status": "weave-failed", "message": "engine V not built yet"}
+    os.makedirs(outdir, exist_ok=True)
+    t0 = time.time()
+    try:
+        mod = load_spec(u["spec"])
+        wr = mod.build(REPO, u)
+    except WeaveError as e:
+        return {"status": "weave-failed", "message": str(e), "time_s": time.time() - t0}
+    except FileNotFoundError as e:
+        return {"status": "weave-failed", "message": "source file missing: %s" % e, "time_s": time.time() - t0}
+    path = os.path.join(outdir, u["id"] + ".rs")
+    open(path, "w").write(wr.text)
+    try:
+        p = subprocess.run(["verus", path, "--output-json", "--time", "--rlimit", str(u.get("rlimit", 60))],
+                           cwd=outdir, stdout=subprocess.PIPE, stderr=subprocess.PIPE, text=True,
+                           timeout=u.get("timeout", 300))
+    except subprocess.TimeoutExpired:
+        return {"status": "timeout", "message": "verus timed out after %ss" % u.get("timeout", 300), "file": path,
+                "weave_report": wr.report, "time_s": time.time() - t0}
+    for f in (u["id"], "lib" + u["id"] + ".rlib"):
+        fp = os.path.join(outdir, f)
+        if os.path.exists(fp):
+            os.remove(fp)
+    res = {"file": path, "weave_report": wr.report, "raw": (p.stderr or "")[-8000:], "time_s": time.time() - t0}
+    try:
+        j = json.loads(p.stdout)
+    except Exception:
+        res.update(status="rejected", message="no JSON from verus: " + (p.stderr or p.stdout)[-1500:])
+        return res
+    vr = j.get("verification-results", {})
+    res["total"] = vr.get("verified", 0) + vr.get("errors", 0)
+    res["verified"] = vr.get("verified", 0)
+    res["time_s"] = j.get("times-ms", {}).get("total", 0) / 1000.0 or res["time_s"]
+    res["samples"] = [{"description": "Verus function obligation set: " + k, "function": k, "category": "verus",
+                       "location": os.path.relpath(path, VERIF)}
+                      for k in j.get("func-details", {}) if k.startswith(u["id"] + "::")][:4]
+    if vr.get("encountered-error") or vr.get("encountered-vir-error") or "verified" not in vr:
+        # rustc / VIR error: unsupported construct or lost anchor in the proof text, not a verification failure
+        res.update(status="rejected", message=(p.stderr or "")[-2500:])
+        return res
+    if vr.get("errors", 0) == 0 and vr.get("success"):
+        res["status"] = "verified"
+        return res
+    # classify: rlimit/timeouts are tool limits; failed asserts/post-conditions are obligations
+    err = p.stderr or ""
+    if re.search(r"Resource limit \(rlimit\) exceeded|timed out", err) and not re.search(
+            r"assertion failed|postcondition not satisfied|precondition not satisfied|invariant not satisfied|"
+            r"possible arithmetic|possible division|decreases not satisfied|loop invariant", err):
+        res.update(status="rlimit", message="Verus resource limit exceeded")
+        return res
+    failed = []
+    for m in re.finditer(r"error: ([^\n]+)\n\s+--> ([^\n]+)\n(?:[^\n]*\n){0,3}?\s*(\d+)\s*\|\s*([^\n]*)", err):
+        if m.group(1).startswith("aborting") or "Resource limit" in m.group(1):
+            continue
+        failed.append({"description": m.group(1).strip() + " :: " + m.group(4).strip()[:160], "function": u["fns"][0],
+                       "category": "verus", "location": m.group(2).strip()})
+    if not failed:
+        failed = [{"description": "verus reported %d unverified obligation(s)" % vr.get("errors", 0),
+                   "function": u["fns"][0], "category": "verus", "location": path}]
+    res.update(status="failed", failed=failed)
+    return res
